@@ -833,11 +833,18 @@ pub fn features(n: &Node) -> BTreeSet<String> {
     out
 }
 
-/// smaller variants of a query (for shrinking a failing case)
-pub fn simplifications(n: &Node) -> Vec<Node> {
-    let mut out = vec![];
-    match n {
-        Node::Leaf(l) => match l {
+
+fn leaf_rank(l: &Leaf) -> u32 {
+    match l {
+        Leaf::All => 0,
+        Leaf::Term { field: FieldSel::Default, val: Val::Text(t) } if t.len() == 1 && t[0] == "apple" => 1,
+        Leaf::Term { field: FieldSel::Title, val: Val::Text(t) } if t.len() == 1 && t[0] == "apple" => 2,
+        _ => 3,
+    }
+}
+
+fn simplify_leaf(l: &Leaf, out: &mut Vec<Node>) {
+    match l {
             Leaf::Set { field, elems } if elems.len() > 1 => {
                 for k in 0..elems.len() {
                     let mut e = elems.clone();
@@ -855,10 +862,46 @@ pub fn simplifications(n: &Node) -> Vec<Node> {
                 }
             }
             _ => {}
-        },
+    }
+}
+
+/// smaller variants of a query (for shrinking a failing case)
+pub fn simplifications(n: &Node) -> Vec<Node> {
+    let mut out = vec![];
+    match n {
+        Node::Leaf(l) => {
+            simplify_leaf(l, &mut out);
+            // canonical stand-ins: a structural defect survives them, a literal defect does not
+            let word = || Val::Text(vec!["apple".to_string()]);
+            for cand in [
+                Leaf::All,
+                Leaf::Term { field: FieldSel::Default, val: word() },
+                Leaf::Term { field: FieldSel::Title, val: word() },
+            ] {
+                if *l != cand && leaf_rank(l) > leaf_rank(&cand) {
+                    out.push(Node::Leaf(cand));
+                }
+            }
+        }
+
         Node::Occur(items) => {
             for (_, x) in items {
                 out.push(x.clone());
+            }
+            // weaker occur markers: only the ones that matter survive
+            for k in 0..items.len() {
+                let weaker = match items[k].0 {
+                    Occ::NotKw => Some(Occ::MustNot),
+                    Occ::MustNot | Occ::Must => Some(Occ::Bare),
+                    Occ::Bare => None,
+                };
+                if let Some(w) = weaker {
+                    let mut it = items.clone();
+                    it[k].0 = w;
+                    if it.iter().any(|(o, _)| matches!(o, Occ::Bare | Occ::Must)) {
+                        out.push(Node::Occur(it));
+                    }
+                }
             }
             if items.len() > 1 {
                 for k in 0..items.len() {
@@ -918,17 +961,42 @@ pub enum PrintMode {
     Plain,
     /// random but meaning-preserving whitespace, quoting, escaping, parentheses, boosts, case
     Noisy,
+    /// Plain + a boost on every operand that can take one
+    Boosted,
+    /// Plain + redundant parentheses around every operand
+    Parens,
+    /// Plain + every value quoted
+    Quoted,
+    /// Plain + tabs / newlines / doubled blanks wherever whitespace is optional or required
+    Spaced,
+}
+
+impl PrintMode {
+    pub fn label(self) -> &'static str {
+        match self {
+            PrintMode::Plain => "plain",
+            PrintMode::Noisy => "noisy",
+            PrintMode::Boosted => "with-boosts",
+            PrintMode::Parens => "with-redundant-parentheses",
+            PrintMode::Quoted => "with-quoted-values",
+            PrintMode::Spaced => "with-extra-whitespace",
+        }
+    }
 }
 
 const WORD_ESCAPED: &[char] = &['^', '`', ':', '{', '}', '"', '\'', '[', ']', '(', ')', '\\'];
 const FIELD_SPECIAL: &[char] = &['+', '^', '`', ':', '{', '}', '"', '\'', '[', ']', '(', ')', '!', '\\', '*', ' '];
 
 fn ws(rng: &mut Rng, mode: PrintMode, min1: bool) -> String {
-    if mode == PrintMode::Plain {
-        return if min1 { " ".into() } else { String::new() };
+    match mode {
+        PrintMode::Noisy => {
+            let n = if min1 { *rng.pick(&[1usize, 1, 1, 2, 3]) } else { *rng.pick(&[0usize, 0, 0, 1, 2]) };
+            (0..n).map(|_| *rng.pick(&[' ', ' ', ' ', '\t', '\n', '\r'])).collect()
+        }
+        // no blank at all: a blank hides the defects that tabs and newlines trigger
+        PrintMode::Spaced => if min1 { "\n".into() } else { "\t".into() },
+        _ => if min1 { " ".into() } else { String::new() },
     }
-    let n = if min1 { *rng.pick(&[1usize, 1, 1, 2, 3]) } else { *rng.pick(&[0usize, 0, 0, 1, 2]) };
-    (0..n).map(|_| *rng.pick(&[' ', ' ', ' ', '\t', '\n', '\r'])).collect()
 }
 
 fn rfc3339(secs: i64, offset_minutes: i64, style: usize) -> String {
@@ -976,7 +1044,7 @@ fn base64(bytes: &[u8]) -> String {
 }
 
 fn random_case(w: &str, rng: &mut Rng, mode: PrintMode) -> String {
-    if mode == PrintMode::Plain {
+    if mode != PrintMode::Noisy {
         return w.to_string();
     }
     match rng.weighted(&[6, 2, 2]) {
@@ -1094,7 +1162,7 @@ fn quoted(lit: &str, q: char, rng: &mut Rng, mode: PrintMode) -> String {
 
 fn print_value(lit: &str, rng: &mut Rng, mode: PrintMode, unfielded: bool, force_quotes: bool) -> String {
     let can_bare = !force_quotes && bare_possible(lit, unfielded);
-    if can_bare && (mode == PrintMode::Plain || rng.chance(3, 5)) {
+    if can_bare && mode != PrintMode::Quoted && (mode != PrintMode::Noisy || rng.chance(3, 5)) {
         bare_word(lit, rng, mode)
     } else {
         let q = if mode == PrintMode::Noisy && rng.chance(1, 3) { '\'' } else { '"' };
@@ -1136,7 +1204,14 @@ fn print_field(field: FieldSel, rng: &mut Rng, mode: PrintMode) -> String {
                 }
                 s.push(c);
             }
-            format!("{s}{}:{}", ws(rng, mode, false), ws(rng, mode, false))
+            // before the colon only blanks: the grammar ends a field name at ' ' but takes a
+            // tab or newline as part of the name
+            let before = match mode {
+                PrintMode::Noisy => *rng.pick(&["", "", "", " ", "  "]),
+                PrintMode::Spaced => " ",
+                _ => "",
+            };
+            format!("{s}{before}:{}", ws(rng, mode, false))
         }
     }
 }
@@ -1308,11 +1383,17 @@ fn print_node(n: &Node, rng: &mut Rng, mode: PrintMode, atomic: bool, allow_boos
             }
         }
     }
+    if mode == PrintMode::Parens {
+        s = wrap(s, rng, mode);
+    }
+    if mode == PrintMode::Boosted && boostable && allow_boost {
+        s.push_str("^2");
+    }
     s
 }
 
 pub fn print_query(n: &Node, rng: &mut Rng, mode: PrintMode) -> String {
-    let body = print_node(n, rng, mode, false, true);
+    let body = print_node(n, rng, mode, mode == PrintMode::Boosted && !matches!(n, Node::Leaf(_)), true);
     format!("{}{body}{}", ws(rng, mode, false), ws(rng, mode, false))
 }
 
